@@ -63,7 +63,7 @@ pub fn run_params(p: &P, seed: u64) -> RunOut {
     let own = SimId::new(1, 1);
     let mut cfg = Config::simple();
     cfg.remove_down_after = std::time::Duration::from_secs(1_000_000);
-    let mut d = Driver::new(Setup { id: own, cfg, codec: CodecKind::Wire, policy: Policy::never(), hcfg: HandlerCfg::default_cfg(), rng_seed: p.rng_seed });
+    let mut d = Driver::new(Setup { id: own, cfg, codec: CodecKind::Wire, policy: Policy::never(), hcfg: HandlerCfg::default_cfg(), rng_seed: p.rng_seed, acc_twin: false });
     let mut s = Stream::new(seed, "c14-layout");
     let mut vs = Vec::new();
     let mut next_addr = 2u16;
